@@ -4780,9 +4780,18 @@ int main(int argc, char** argv) {
             ephemeralnet::daemon::ControlFields base_fields{{"MANIFEST", manifest_uri},
                                                             {"STREAM", "client"}};
 
-            auto finalize_fetch = [&](const ephemeralnet::daemon::ControlResponse& response) {
+            // Every path ends here: a payload is written only if it hashes to the manifest's content hash.
+            auto finalize_fetch = [&](const ephemeralnet::daemon::ControlResponse& response) -> bool {
                 const auto reported_size = response.fields.contains("SIZE") ? response.fields.at("SIZE") : "0";
                 if (response.has_payload) {
+                    if (!decoded_manifest.has_value()) {
+                        return false;
+                    }
+                    const auto digest = ephemeralnet::crypto::Sha256::digest(
+                        std::span<const std::uint8_t>(response.payload.data(), response.payload.size()));
+                    if (digest != decoded_manifest->chunk_hash) {
+                        return false;
+                    }
                     try {
                         std::ofstream out(resolved_output, std::ios::binary | std::ios::trunc);
                         if (!out) {
@@ -4807,13 +4816,17 @@ int main(int argc, char** argv) {
                                                 : reported_size;
                     std::cout << "File retrieved to " << resolved_output.string() << " (" << local_size << " bytes)" << std::endl;
                 } else {
-                    const auto output = response.fields.contains("OUTPUT") ? response.fields.at("OUTPUT")
-                                                                             : resolved_output.string();
+                    if (!response.fields.contains("OUTPUT")) {
+                        // Streaming was requested: a reply without payload and without a daemon-side path delivered nothing.
+                        return false;
+                    }
+                    const auto output = response.fields.at("OUTPUT");
                     std::cout << "File retrieved to " << output << " (" << reported_size << " bytes)" << std::endl;
                     if (output != resolved_output.string()) {
                         std::cout << "Hint: File was written on the daemon host; copy it manually if needed." << std::endl;
                     }
                 }
+                return true;
             };
 
             auto perform_fetch_request = [&](ephemeralnet::daemon::ControlClient& target_client,
@@ -5014,7 +5027,10 @@ int main(int argc, char** argv) {
                         synthetic.payload = *plaintext;
                         synthetic.fields["SIZE"] = std::to_string(plaintext->size());
 
-                        finalize_fetch(synthetic);
+                        if (!finalize_fetch(synthetic)) {
+                            attempt_log.push_back({friendly_label, "Reply did not carry a payload matching the manifest hash"});
+                            return false;
+                        }
                         std::cout << "Direct fetch succeeded via " << endpoint_desc << " (transport)" << std::endl;
                         outcome.success = true;
                         outcome.logs = attempt_log;
@@ -5096,7 +5112,10 @@ int main(int argc, char** argv) {
                         return false;
                     }
 
-                    finalize_fetch(*response);
+                    if (!finalize_fetch(*response)) {
+                        attempt_log.push_back({friendly_label, "Reply did not carry a payload matching the manifest hash"});
+                        return false;
+                    }
                     if (from_fallback) {
                         std::cout << "Fallback fetch succeeded via " << endpoint_desc << std::endl;
                     } else {
@@ -5246,7 +5265,11 @@ int main(int argc, char** argv) {
             std::string local_error;
             const auto local_response = perform_fetch_request(client, base_fields, "Downloading", &local_error);
             if (local_response && local_response->success) {
-                finalize_fetch(*local_response);
+                if (!finalize_fetch(*local_response)) {
+                    throw_cli_error("E_FETCH_HASH_MISMATCH",
+                                    "The daemon did not return data matching the manifest hash",
+                                    "Nothing was written. Verify the manifest URI and the daemon you are connected to.");
+                }
                 print_daemon_hint(*local_response);
                 return 0;
             }
